@@ -428,3 +428,60 @@ class _ChainJac(H):
 for _n in (1, 2, 3):
     register(type('Helper_chainJacobian_%d' % _n, (_ChainJac,), dict(n=_n, shape_bound='%d joints, unit rotation axes' % _n,
                                                                        __doc__='chainJacobian = analytic space Jacobian, %d joints' % _n)))
+
+
+@register
+class Helper_closeArcGap(H):
+    """closeArcGap(o, goal, delta) = o * T(delta * u), u the unit six-vector along goal - o: the step has exactly the
+    requested size whatever the remaining gap (also when the gap is smaller than the step)"""
+    target = FSR + ':closeArcGap'
+    under_contract = (BH + ':TAAtoTM',)
+
+    def run(self, g, fn, args, kwargs):
+        tm = g.module(TMM).tm
+        xo = g.reals('o', 6, scale=2.0)
+        w = g.reals('w', 6, scale=0.5)
+        s = g.real('s', lo=0.01, hi=2.0)          # goal = origin + s w: gaps both larger and smaller than the step
+        xg = [xo[k] + s * w[k] for k in range(6)]
+        delta = g.real('d', lo=1e-3, hi=1.0)
+        gap = [xg[k] - xo[k] for k in range(6)]
+        n2 = S.dotv(gap, gap)
+        g.require(n2 > 1e-6)
+        o = tm(list(xo))
+        return fn(o, tm(list(xg)), delta), o, gap, delta
+
+    def post(self, g, out, args, kwargs):
+        r, o, gap, delta = out
+        n = S.norm(gap)
+        step = [gap[k] * delta / n for k in range(6)]
+        if g.symbolic:
+            mr = g.module(MR)
+            Rs = mr.MatrixExp3(mr.VecToso3(npx.array(step[3:6], dtype=float)))      # the L0 contract's result for this argument
+        else:
+            Rs = S.ExpLib3(step[3:6])
+        Ts = S.RpT(Rs, step[0:3])
+        g.eq('closeArcGap = origin * T(delta * unit six-vector of the gap)', r.gTM(), S.mm(o.gTM(), Ts), tol=None if g.symbolic else 5e-6)
+
+
+class _IKPathCount(H):
+    """bounded native stand-in (probes): IKPath returns exactly `steps` poses for every step count 2..200 -- the count
+    depends on floating-point rounding of the step arithmetic, which the real-number model cannot see"""
+    target = FSR + ':IKPath'
+    probes = [dict(steps=float(k)) for k in range(2, 201)]
+    shape_bound = 'probes: steps = 2..200 on the native code; the symbolic run uses steps = 4'
+
+    def run(self, g, fn, args, kwargs):
+        tm = g.module(TMM).tm
+        steps = 4 if g.mode != 'concrete' else int(g.real('steps', lo=2.0, hi=200.0))
+        if g.mode != 'concrete':
+            g.real('steps', lo=2.0, hi=200.0)
+        a = tm([0.1, 0.2, 0.3, 0.1, 0.2, 0.3])
+        b = tm([1.1, -0.7, 0.9, 0.4, -0.1, 0.2])
+        return fn(a, b, steps), steps
+
+    def post(self, g, out, args, kwargs):
+        path, steps = out
+        g.holds('IKPath returns exactly the requested number of poses (steps = %d)' % steps, len(path) == steps)
+
+
+register(type('Helper_IKPath_count_probes', (_IKPathCount,), dict()))
